@@ -19,10 +19,10 @@ func checkC12(c *Ctx) {
 	c.rule = "cases = request histories containing CheckAndMutateRow requests (each preceded by a ReadRows of the same row through the same filter): TLC-enumerated transitions of MC_BtCam with BFS history, and seeded random programs with predicate trees to depth 2; executed on the real emulator on every engine; predicate_matched, status and full read-back validated step by step by TLC against BtData.CheckAndMutate; distinct = distinct history text; non-trivial = at least one request after table creation"
 	c.runBtFamily(btFamily{
 		Label: "C12", Module: "MC_BtCam",
-		Quick:      map[string]string{"MaxCells": "3", "MaxCam": "1"},
-		Thorough:   map[string]string{"MaxCells": "3", "MaxCam": "2"},
-		DumpThor:   map[string]string{"MaxCells": "3", "MaxCam": "1"},
-		SampleQ:    "15", SampleT: "2", MaxReplayQ: 1500,
+		Quick:    map[string]string{"MaxCells": "3", "MaxCam": "1"},
+		Thorough: map[string]string{"MaxCells": "3", "MaxCam": "2"},
+		DumpThor: map[string]string{"MaxCells": "3", "MaxCam": "1"},
+		SampleQ:  "15", SampleT: "2", MaxReplayQ: 1500,
 		Invariants: []string{"InvCanonical"}, Properties: []string{"FailedIsNoop", "BranchLaw", "NoPredLaw"},
 		Gen: genCamProgram, NRandQ: 150, NRandT: 3000,
 	})
@@ -33,11 +33,11 @@ func checkC14(c *Ctx) {
 	c.rule = "cases = request histories of admin requests (create/get/list/delete table, modify families, drop row range) interleaved with writes over several tables and parents: TLC-enumerated transitions of MC_BtAdmin with BFS history, and seeded random programs; executed on the real emulator on every engine; replies and the full read-back of every table under every parent validated step by step by TLC against BtData; distinct = distinct history text; non-trivial = at least two requests"
 	c.runBtFamily(btFamily{
 		Label: "C14", Module: "MC_BtAdmin",
-		Quick:      map[string]string{"MaxCells": "2", "MaxDepth": "4", "MaxMods": "1"},
-		Thorough:   map[string]string{"MaxCells": "2", "MaxDepth": "5", "MaxMods": "3"},
-		DumpQuick:  map[string]string{"MaxCells": "2", "MaxDepth": "4", "MaxMods": "2"},
-		DumpThor:   map[string]string{"MaxCells": "2", "MaxDepth": "4", "MaxMods": "3"},
-		SampleQ:    "600", SampleT: "60", MaxReplayQ: 1500,
+		Quick:     map[string]string{"MaxCells": "2", "MaxDepth": "4", "MaxMods": "1"},
+		Thorough:  map[string]string{"MaxCells": "2", "MaxDepth": "5", "MaxMods": "3"},
+		DumpQuick: map[string]string{"MaxCells": "2", "MaxDepth": "4", "MaxMods": "2"},
+		DumpThor:  map[string]string{"MaxCells": "2", "MaxDepth": "4", "MaxMods": "3"},
+		SampleQ:   "600", SampleT: "60", MaxReplayQ: 1500,
 		Invariants: []string{"InvCanonical"}, Properties: []string{"FailedIsNoop", "Frame", "DropLaw"},
 		Gen: genAdminProgram, NRandQ: 150, NRandT: 3000,
 	})
@@ -50,11 +50,11 @@ func checkC16(c *Ctx) {
 	c.rule = "cases = request histories with GC passes (forced passes with a scripted clock, and the collector's own quiescence decision on busy / idle tables): TLC-enumerated transitions of MC_BtGc (all rule trees of depth <= 2, cells at the cut-off +-1 ms) with BFS history, and seeded random programs with rule trees to depth 2; executed on the real emulator on every engine; full read-back validated step by step by TLC against BtData.GcPass/GcAuto; distinct = distinct history text; non-trivial = at least two requests"
 	c.runBtFamily(btFamily{
 		Label: "C16", Module: "MC_BtGc",
-		Quick:      map[string]string{"MaxCells": "3", "MaxPasses": "1"},
-		Thorough:   map[string]string{"MaxCells": "4", "MaxPasses": "1"},
-		DumpQuick:  map[string]string{"MaxCells": "3", "MaxPasses": "1"},
-		DumpThor:   map[string]string{"MaxCells": "3", "MaxPasses": "1"},
-		SampleQ:    "1000", SampleT: "60", MaxReplayQ: 1200,
+		Quick:     map[string]string{"MaxCells": "3", "MaxPasses": "1"},
+		Thorough:  map[string]string{"MaxCells": "4", "MaxPasses": "1"},
+		DumpQuick: map[string]string{"MaxCells": "3", "MaxPasses": "1"},
+		DumpThor:  map[string]string{"MaxCells": "3", "MaxPasses": "1"},
+		SampleQ:   "1000", SampleT: "60", MaxReplayQ: 1200,
 		Invariants: []string{"InvCanonical", "InvSeqForm"}, Properties: []string{"PassLaw"},
 		Gen: genGcProgram, NRandQ: 150, NRandT: 3000,
 	})
